@@ -11,10 +11,10 @@ def tla_set(xs):
     return "{" + ",".join('"%s"' % x for x in xs) + "}"
 
 
-def generate(ck, prop, tier, seed, fields=True):
+def generate(ck, prop, tier, seed, fields=True, sink=None):
     thorough = tier == "thorough"
     vec = vlib.vecpath(prop, "gen")
-    with open(vec, "w") as sink:
+    with (sink or open(vec, "w")) as sink:
         # every leaf kind under every constructor, two levels deep
         mc = vlib.must_hold(vlib.tlc("JsonTypes", "MC_JsonTypes.cfg", workers=8), "JsonTypes (depth 2, all kinds)")
         ck.add_mc(mc, "MC_JsonTypes")
@@ -38,7 +38,7 @@ def generate(ck, prop, tier, seed, fields=True):
     return vec
 
 
-def run(prop, tier, seed, rule, assumptions, shards=4, isolate=False, fields=True, extra_vec=None, timeout=3000):
+def run(prop, tier, seed, rule, assumptions, shards=4, isolate=True, fields=True, extra_vec=None, timeout=3000):
     ck = vlib.Check(prop, tier, seed)
     vec = generate(ck, prop, tier, seed, fields=fields)
     if extra_vec:
